@@ -71,7 +71,7 @@ def oracle(raw):
     if 'DEADLOCK' in raw: return 'stuck state'
     if 'STEP LIMIT' in raw: return 'live-lock: step limit reached'
     lines = [l.split() for l in raw.splitlines() if l and l[0].isdigit()]
-    startcall = {}; nh = {}; pending_start = {}; gps = []; gb = None; lastpolled = {}
+    startcall = {}; nh = {}; pending_start = {}; gps = []; gb = None; lastpolled = {}; pollcall = {}; wastrue = {}
     for i, p in enumerate(lines):
         t, k = p[0], p[1]
         if k == 'call' and p[2] == 'start': pending_start[t] = i
@@ -79,8 +79,13 @@ def oracle(raw):
         elif k == 'note' and p[2] == 'gpbegin': gb = i
         elif k == 'note' and p[2] == 'gpend': gps.append((gb, i))
         elif k == 'note' and p[2] == 'polled': lastpolled[t] = (p[3], int(p[4]))
+        elif k == 'call' and p[2] == 'poll': pollcall[t] = i; lastpolled.pop(t, None)
+        elif k == 'ret' and p[2] == 'poll' and p[3] == '0' and t in lastpolled:
+            h = lastpolled[t]
+            if h in wastrue and wastrue[h] < pollcall.get(t, -1):
+                return 'poll of handle %d of thread %s answered false at step %d although a poll of the same handle had answered true at step %d (once true it stays true)' % (h[1], h[0], i, wastrue[h])
         elif k == 'ret' and p[2] == 'poll' and p[3] == '1':
-            o, d = lastpolled[t]; c = startcall.get((o, d))
+            o, d = lastpolled[t]; c = startcall.get((o, d)); wastrue.setdefault((o, d), i)
             if c is None: continue
             if not any(b >= c and e <= i for b, e in gps):
                 return ('poll of handle %d of thread %s answered true at step %d, but no grace period both began after that start_poll call (step %d) and ended before the answer; '
@@ -123,7 +128,11 @@ def run(ctx):
                 for point in range(1, 14 if ctx.quick() else 30):
                     cases.append((prog, parking(th, point, 1, v), C0S[point % 4]))
                     cases.append((prog, parking_ops(th, v, point, 1, 2, 1), C0S[(point + 1) % 4]))
-        n = 400 if ctx.quick() else 6000
+        # a handle that has polled true is polled again while another thread is k steps into start_poll (holding the poll lock): the answer must not flip
+        for k in range(0, 14):
+            for c0 in C0S[:2]:
+                cases.append(('SP0P0P0/SS/GGG', '>0>2>2>0' + '1' * k + '>0>0', c0))
+        n = len(cases) + 200 if ctx.quick() else 6000
         while len(cases) < n:
             prog = ctx.rng.choice(PROGS); th = [str(i) for i in range(prog.count('/') + 1)]
             cases.append((prog, bursty(ctx.rng, th, lo=20, hi=160, means=(1, 2, 4, 9)), ctx.rng.choice(C0S)))
